@@ -77,6 +77,56 @@ def run_mp(sc):
     return out
 
 
+def _late_model(seed, mod, durs):
+    """Source -> machine -> sink through the genuine System.simulate (whose first call initialises the simulation); the sink's
+    receive callback creates a further asset when its k-th part arrives.  Returns everything observable at the end."""
+    from simprocesd.model import System
+    from simprocesd.model.factory_floor import Source, PartProcessor, Sink, ActionScheduler
+    from simprocesd.model.sensors import PeriodicSensor, AttributeProbe
+    c1, c2, k = 1 + seed % 3, 1.5 + (seed // 3) % 2, 2 + (seed // 6) % 4
+    with common.WeightPatch(seed, mod, 'skipterm'), contextlib.redirect_stdout(io.StringIO()):
+        system = System()
+        src = Source('src', cycle_time=c1)
+        m = PartProcessor('m', upstream=[src], cycle_time=c2)
+        snk = Sink('snk', upstream=[m])
+        made, calls = [], []
+
+        def on_receive(sink, part):
+            if sink.received_parts_count == k and not made:
+                if seed % 2:
+                    made.append(PeriodicSensor(1.25, [AttributeProbe('received_parts_count', snk)], 'late_sensor'))
+                else:
+                    sch = ActionScheduler([(1.25, 'x'), (0.75, 'y')], 'late_sched')
+                    sch.register_object(snk, lambda sc_, o, t, st: calls.append((t, st)))
+                    made.append(sch)
+        snk.add_receive_part_callback(on_receive)
+        for d in durs:
+            system.simulate(d, print_summary=False)
+        data = {lab: {sub: [tuple(x) if isinstance(x, (list, tuple)) else x for x in v] for sub, v in dd.items()} for lab, dd in system.simulation_data.items()}
+        # part ids come from the process-wide counter: number them from the first one this model generated
+        plabels = ('received_part', 'produced_part', 'supplied_new_part')
+        ids = [r[1] for lab in plabels for v in data.get(lab, {}).values() for r in v]
+        base = min(ids) if ids else 0
+        for lab in plabels:
+            for sub, v in data.get(lab, {}).items():
+                data[lab][sub] = [(r[0], r[1] - base) + tuple(r[2:]) for r in v]
+        extra = None
+        if made and seed % 2:
+            extra = {str(kk): list(v) for kk, v in made[0].data.items()} if hasattr(made[0], 'data') else None
+        elif made:
+            extra = (made[0].current_state, list(calls))
+        return dict(now=system.env.now, count=snk.received_parts_count, data={l: d for l, d in data.items()}, created=len(made), extra=extra)
+
+
+def run_split_late(sc):
+    seed, mod = sc['seed'], sc.get('mod', 1)
+    a = 3 + seed % 5
+    b = 6 + (seed // 5) % 6
+    whole = _late_model(seed, mod, [a + b])
+    parts = _late_model(seed, mod, [a, b])
+    return dict(a=a, b=b, same=(whole == parts), whole=whole if whole != parts else None, parts=parts if whole != parts else None)
+
+
 def run_impl(sc):
     flat, obs = fam_floor.run_impl(sc)
     if not obs:
@@ -105,6 +155,8 @@ def run_impl(sc):
             rep['split_where'] = fam_floor.locate(sc, r1, rep['split'])
     if sc.get('mp'):
         rep['mp'] = run_mp(sc)
+    if sc['seed'] % 4 == 0:
+        rep['split_late'] = run_split_late(sc)
     obs[-1]['repro'] = rep
     return flat, obs
 
@@ -125,6 +177,12 @@ def monitor_c14(sc, obs):
         bad('C14/seeded-differs', 'two runs after random.seed(%d) differ at position %d of the normalised state trace' % (sc['seed'], rep['seeded']))
     if rep.get('split') is not None:
         bad('C14/split-differs', 'running d as d//2 then d - d//2 (tie-break choices held fixed) gives a different evolution: first difference at %s' % rep.get('split_where'))
+    sl = rep.get('split_late')
+    if sl and not sl['same']:
+        def brief(r):
+            return dict(now=r['now'], count=r['count'], created=r['created'], extra=r['extra'])
+        bad('C14/split-differs', 'a line whose sink callback creates a further asset during the run: simulate(%d) then simulate(%d) ends differently from simulate(%d) (tie-break choices held fixed): %s vs %s'
+            % (sl['a'], sl['b'], sl['a'] + sl['b'], brief(sl['parts']), brief(sl['whole'])))
     mp = rep.get('mp')
     if mp:
         for p in (0, 2):
